@@ -3,6 +3,7 @@ package pass1
 import (
 	"fmt"
 	"log"
+	"math"
 
 	"github.com/HobbyOSs/gosk/internal/ast" // Add ast import
 )
@@ -249,6 +250,12 @@ func processRESB(env *Pass1, operands []ast.Exp) {
 	size := numExp.Value // Value is int64
 	if size < 0 {
 		log.Printf("Error: RESB size cannot be negative (%d).", size)
+		return
+	}
+	// LOC is an int32: a larger reservation would wrap the location counter
+	// (and asks the code generator for an allocation of that many bytes).
+	if size > math.MaxInt32 {
+		log.Printf("Error: RESB size %d is too large (maximum %d).", size, math.MaxInt32)
 		return
 	}
 
